@@ -7,4 +7,5 @@ func genMore() {
 	genFilters()
 	genErrorSites()
 	genBuilderTables()
+	genTrackConsts()
 }
